@@ -266,6 +266,7 @@ template <class Spec> struct impl : iface
 typedef igris::timer_spec<uint32_t> spec_u32;
 typedef igris::timer_spec<int32_t> spec_i32;
 typedef igris::timer_spec<int64_t> spec_i64;
+typedef igris::timer_spec<uint32_t, int32_t> spec_u32s; // unsigned ticks with an explicitly SIGNED difference type
 static_assert(std::is_same<spec_i32::difftime_t, int32_t>::value, "difftime_t of the int32_t instance is int32_t");
 static_assert(std::is_same<spec_u32::difftime_t, uint32_t>::value, "difftime_t of the unsigned instance is uint32_t");
 static_assert(std::is_same<igris::timer_manager, igris::timer_manager_basic<igris::timer_spec<int64_t>>>::value, "");
@@ -808,6 +809,7 @@ static std::string consts_line()
     s += " mgr[" + mgr_types<igris::timer_spec<int64_t>>() + "]";
     s += " i32[" + mgr_types<spec_i32>() + "]";
     s += " u32[" + mgr_types<spec_u32>() + "]";
+    s += " u32s[" + mgr_types<spec_u32s>() + "]";
     s += " default=" + std::string(std::is_same<igris::timer_manager, igris::timer_manager_basic<igris::timer_spec<int64_t>>>::value ? "int64" : "other");
     s += " delegate=" + std::to_string(sizeof(igris::delegate<void, int>));
     return s;
@@ -844,6 +846,11 @@ static void run_op(const std::vector<std::string> &w, const std::string &, hv::o
             // timer_spec<int32_t>: a signed 32-bit tick counter (wraps after 2^31 ticks)
             W_.t = new impl<spec_i32>(atoi(w[2].c_str()), -1);
             W_.oracle_on = w[1] == "i";
+        }
+        else if (w[1] == "v" || w[1] == "V")
+        {
+            W_.t = new impl<spec_u32s>(atoi(w[2].c_str()), -1);
+            W_.oracle_on = w[1] == "v";
         }
         else if (w[1] == "l")
         {
@@ -1662,7 +1669,7 @@ static void gen_wrap_outside_case_m(hv::rng &r, const std::string &mode)
             i64 st = now - (i64)r.below(5);
             if (r.chance(25)) { st = now + 1 + (i64)r.below(50); if (iv % P32 < P30) iv = P30 + (i64)r.below(1000); }
             // a signed instance reads an interval >= 2^31 as negative: always due, exec would never return
-            if (mode == "I" && (iv % P32 >= P31 || iv % P32 == 0)) iv = P30 + iv % P30;
+            if ((mode == "I" || mode == "V") && (iv % P32 >= P31 || iv % P32 == 0)) iv = P30 + iv % P30;
             emit("plan " + S(r.below(n)) + " " + S(st) + " " + S(iv));
         }
         else if (c < 52) emit("unplan " + S(r.below(n)));
@@ -2078,6 +2085,22 @@ static void gen_signed(hv::rng &r, bool th)
                                                   " 9223372036853775808", " 0", " 4611686018427387904"};
     for (int c = 0; c < (th ? 8000 : 350); c++) gen_wrap_case_m(r, "i", "", b32);
     for (int c = 0; c < (th ? 1000 : 60); c++) gen_wrap_outside_case_m(r, "I");
+    // timer_spec<uint32_t, int32_t>
+    emit("reset v 2");
+    emit("plan 0 4294967286 4");
+    emit("plan 1 4294967286 25");
+    emit("exec 4294967295 -");
+    emit("exec 4294967296 -");
+    emit("exec 4294967330 1@0:u0");
+    emit("reset V 1");
+    emit("plan 0 110 1073741824"); // start in the future: the signed difference says "not due"
+    emit("exec 100 -");
+    emit("exec 1073741934 -");
+    {
+        static const std::vector<i64> bu = {P32 - 10, P32 - 40, P31 - 10, 3 * P32 - 25, 0};
+        for (int c = 0; c < (th ? 4000 : 150); c++) gen_wrap_case_m(r, "v", "", bu);
+        for (int c = 0; c < (th ? 600 : 40); c++) gen_wrap_outside_case_m(r, "V");
+    }
     for (int c = 0; c < (th ? 6000 : 300); c++) gen_wrap_case_m(r, "l", r.pick(offs), b64);
 }
 
